@@ -350,3 +350,65 @@ Proof.
     replace ((b =? 0) || (b =? 1) || (b =? 2) || (b =? 3)) with true by lia. reflexivity.
   - replace ((nh =? 0) || (nh =? 1) || (nh =? 2)) with false by lia. reflexivity.
 Qed.
+
+Definition common_tuple (r : list Z) :=
+  (arg 0 r, arg 1 r, arg 2 r, (negb (arg 3 r =? 0), negb (arg 4 r =? 0), arg 5 r), arg 6 r, arg 7 r, arg 8 r, arg 9 r).
+
+Lemma src_common_decode x : 0 <= x < 2 ^ 64 ->
+  CommonHeader_decode_from_int x = option_map common_tuple (view_common (unpack common_ws x)).
+Proof.
+  intros Hx. unfold CommonHeader_decode_from_int, TrafficClass_decode_from_int, view_common, unpack, common_ws, common_tuple.
+  cbn [rev app unpack_rev arg nth].
+  rewrite !Z.shiftr_div_pow2 by lia.
+  set (nh := x / 2 ^ 8 / 2 ^ 8 / 2 ^ 16 / 2 ^ 8 / 2 ^ 6 / 2 ^ 1 / 2 ^ 1 / 2 ^ 4 / 2 ^ 4 / 2 ^ 4 mod 2 ^ 4).
+  set (ht := x / 2 ^ 8 / 2 ^ 8 / 2 ^ 16 / 2 ^ 8 / 2 ^ 6 / 2 ^ 1 / 2 ^ 1 / 2 ^ 4 mod 2 ^ 4).
+  set (hst := x / 2 ^ 8 / 2 ^ 8 / 2 ^ 16 / 2 ^ 8 / 2 ^ 6 / 2 ^ 1 / 2 ^ 1 mod 2 ^ 4).
+  set (scf := x / 2 ^ 8 / 2 ^ 8 / 2 ^ 16 / 2 ^ 8 / 2 ^ 6 / 2 ^ 1 mod 2 ^ 1).
+  set (off := x / 2 ^ 8 / 2 ^ 8 / 2 ^ 16 / 2 ^ 8 / 2 ^ 6 mod 2 ^ 1).
+  set (tcid := x / 2 ^ 8 / 2 ^ 8 / 2 ^ 16 / 2 ^ 8 mod 2 ^ 6).
+  set (fl := x / 2 ^ 8 / 2 ^ 8 / 2 ^ 16 mod 2 ^ 8).
+  set (pl := x / 2 ^ 8 / 2 ^ 8 mod 2 ^ 16).
+  set (mhl := x / 2 ^ 8 mod 2 ^ 8).
+  set (rs := x mod 2 ^ 8).
+  replace (Z.land (x / 2 ^ 60) 15) with nh by (subst nh; change 15 with (2 ^ 4 - 1); rewrite land_mask by lia; pow2; lia).
+  replace (Z.land (x / 2 ^ 52) 15) with ht by (subst ht; change 15 with (2 ^ 4 - 1); rewrite land_mask by lia; pow2; lia).
+  replace (Z.land (x / 2 ^ 48) 15) with hst by (subst hst; change 15 with (2 ^ 4 - 1); rewrite land_mask by lia; pow2; lia).
+  replace (Z.land (x / 2 ^ 16) 65535) with pl by (subst pl; change 65535 with (2 ^ 16 - 1); rewrite land_mask by lia; pow2; lia).
+  replace (Z.land (x / 2 ^ 8) 255) with mhl by (subst mhl; change 255 with (2 ^ 8 - 1); rewrite land_mask by lia; pow2; lia).
+  replace (Z.land x 255) with rs by (subst rs; change 255 with (2 ^ 8 - 1); rewrite land_mask by lia; pow2; lia).
+  replace (Z.land (x / 2 ^ 32) 128) with (Z.land fl 128).
+  2:{ subst fl. apply Z.bits_inj'. intros n Hn. rewrite !Z.land_spec.
+      destruct (Z.eq_dec n 7) as [->|Hn7].
+      - rewrite andb_true_r. change (Z.testbit 128 7) with true. rewrite andb_true_r.
+        rewrite Z.mod_pow2_bits_low by lia. f_equal. pow2. lia.
+      - assert (Z.testbit 128 n = false) as ->; [|rewrite !andb_false_r; reflexivity].
+        change 128 with (2 ^ 7). apply Z.pow2_bits_false. lia. }
+  set (tcb := Z.land (x / 2 ^ 40) 255).
+  assert (Etc : tcb = scf * 128 + off * 64 + tcid).
+  { subst tcb scf off tcid. change 255 with (2 ^ 8 - 1). rewrite land_mask by lia. pow2. lia. }
+  assert (Hscf : 0 <= scf < 2) by (subst scf; apply Z.mod_pos_bound; lia).
+  assert (Hoff : 0 <= off < 2) by (subst off; apply Z.mod_pos_bound; lia).
+  assert (Htc : 0 <= tcid < 64) by (subst tcid; apply Z.mod_pos_bound; lia).
+  assert (E7 : Z.land (tcb / 2 ^ 7) 1 = scf) by (replace 1 with (2 ^ 1 - 1) by reflexivity; rewrite (land_mask 1 (tcb / 2 ^ 7)) by lia; pow2; lia).
+  assert (E6 : Z.land (tcb / 2 ^ 6) 1 = off) by (replace 1 with (2 ^ 1 - 1) by reflexivity; rewrite (land_mask 1 (tcb / 2 ^ 6)) by lia; pow2; lia).
+  assert (E0 : Z.land tcb 63 = tcid) by (change 63 with (2 ^ 6 - 1); rewrite (land_mask 6 tcb) by lia; pow2; lia).
+  rewrite E7, E6, E0.
+  assert (Hnh : 0 <= nh < 16) by (subst nh; apply Z.mod_pos_bound; lia).
+  assert (Hht : 0 <= ht < 16) by (subst ht; apply Z.mod_pos_bound; lia).
+  assert (Hhst : 0 <= hst < 16) by (subst hst; apply Z.mod_pos_bound; lia).
+  clearbody nh ht hst scf off tcid fl pl mhl rs tcb.
+  unfold enum_mem_CommonNH, enum_mem_HeaderType, enum_mem_GeoBroadcastHST, enum_mem_TopoBroadcastHST, enum_mem_GeoAnycastHST,
+    enum_mem_LocationServiceHST, enum_mem_HeaderSubType, hst_ok.
+  destruct (nh <=? 3) eqn:E1; cbn [andb].
+  2:{ replace ((nh =? 0) || (nh =? 1) || (nh =? 2) || (nh =? 3)) with false by lia. reflexivity. }
+  replace ((nh =? 0) || (nh =? 1) || (nh =? 2) || (nh =? 3)) with true by lia.
+  destruct (ht <=? 6) eqn:E2; cbn [andb].
+  2:{ replace ((ht =? 0) || (ht =? 1) || (ht =? 2) || (ht =? 3) || (ht =? 4) || (ht =? 5) || (ht =? 6)) with false by lia.
+      reflexivity. }
+  replace ((ht =? 0) || (ht =? 1) || (ht =? 2) || (ht =? 3) || (ht =? 4) || (ht =? 5) || (ht =? 6)) with true by lia.
+  destruct (ht =? 4) eqn:H4; [|destruct (ht =? 5) eqn:H5; [|destruct (ht =? 3) eqn:H3; [|destruct (ht =? 6) eqn:H6]]];
+    cbn [orb];
+    repeat match goal with |- context [if ?c then _ else _] => destruct c eqn:? end;
+    repeat match goal with H : context [if ?c then _ else _] |- _ => destruct c eqn:? end;
+    first [reflexivity | exfalso; lia].
+Qed.
